@@ -1,20 +1,20 @@
 SPECIFICATION GSpec
 CONSTANTS
-  MaxPool = 4
+  MaxPool = 13
   Strategies = {"rr", "fanout", "random"}
-  Keys = {"a", "-"}
-  Pools = {3}
-  Presets = {0, 2}
+  Keys = {"-"}
+  Pools = {9, 10, 11, 12}
+  Presets = {0, 1, 2, 3}
   Hi = 65536
   Lo = 65536
   VN = 2
   H = 8
-  VTabs <- GenVTabs
-  KTabs <- GenKTabs
+  VTabs <- NoVTab
+  KTabs <- NoKTab
   Defects = {}
-  Depth = 5
-  MaxChurn = 99
-  MinAlive = 0
+  Depth = 30
+  MaxChurn = 5
+  MinAlive = 8
   GenOps = {"Send", "Die", "Fail", "Adjust", "GetRoutees"}
-  MaxDelta = 99
+  MaxDelta = 1
 CONSTRAINT Emit
